@@ -39,6 +39,8 @@ package godi
 //@ field Descriptor.Instance immutable
 //@ field Descriptor.VoidReturn immutable
 //@ field Descriptor.MultiReturnIndex immutable
+//@ field Descriptor.outputs immutable
+//@ field Descriptor.outputName immutable
 //@ field Descriptor.Constructor immutable
 //@ field Descriptor.ConstructorType immutable
 //@ field Descriptor.Dependencies immutable
@@ -139,6 +141,51 @@ package godi
 //@   at before call p.disposablesMu.Unlock#1 : assert[C10,C11] appended_last: len(p.disposables) == len(pre) + 1 && p.disposables[len(pre)] == instance
 //@        && (forall i int :: 0 <= i && i < len(pre) ==> p.disposables[i] == pre[i])
 //@   at before call p.singletonKeysMu.Unlock#1 : assert[C10,C14] key_tracked: len(p.singletonKeys) == len(prekeys) + 1 && p.singletonKeys[len(prekeys)] == key
+//
+//@ func provider.cacheSingleton
+//@   mode conc
+//@   safety[C15,C09]
+//@   requires recv: p != nil
+//@   ghost prekeys []instanceKey
+//@   at after call p.singletonKeysMu.Lock#1 : ghost prekeys := p.singletonKeys
+//@   ensures[C01] nil_ignored: instance == nil ==> ncalls("provider.singletons.Store") == 0 && ncalls("provider.singletonKeysMu.Lock") == 0
+//@   ensures[C01] stored: instance != nil ==> ncalls("provider.singletons.Store") == 1 && callarg("provider.singletons.Store", 0, 0) == p
+//@        && callarg("provider.singletons.Store", 0, 1) == box(key) && callarg("provider.singletons.Store", 0, 2) == instance
+//@   ensures[C10] never_tracked_for_disposal: ncalls("provider.disposablesMu.Lock") == 0
+//@   at before call p.singletonKeysMu.Unlock#1 : assert[C10,C14] key_tracked: len(p.singletonKeys) == len(prekeys) + 1 && p.singletonKeys[len(prekeys)] == key
+//
+//@ func scope.cacheInstance
+//@   mode conc
+//@   safety[C15,C13,C09]
+//@   nopanic
+//@   requires recv: s != nil && descriptor != nil && s.rootProvider != nil
+//@   ensures[C01] singleton_delegates: descriptor.Lifetime == Singleton ==> ncalls("provider.cacheSingleton") == 1
+//@        && callarg("provider.cacheSingleton", 0, 0) == s.rootProvider && callarg("provider.cacheSingleton", 0, 1) == key && callarg("provider.cacheSingleton", 0, 2) == instance
+//@        && ncalls("scope.instancesMu.Lock") == 0
+//@   ensures[C01,C02,C03] only_singletons_delegate: descriptor.Lifetime != Singleton ==> ncalls("provider.cacheSingleton") == 0
+//@   ensures[C02] scoped_cached_here: descriptor.Lifetime == Scoped ==> ncalls("scope.instancesMu.Lock") == 1 && callarg("scope.instancesMu.Lock", 0, 0) == s
+//@   ensures[C03] transient_not_cached: descriptor.Lifetime != Scoped ==> ncalls("scope.instancesMu.Lock") == 0
+//@   ensures[C10] never_tracked_for_disposal: ncalls("scope.disposablesMu.Lock") == 0 && ncalls("provider.setSingleton") == 0
+//@   at before call s.instancesMu.Unlock#1 : assert[C02,C13] cached_unless_closed: s.instances != nil ==> (key in s.instances) && s.instances[key] == instance
+//
+//@ func scope.setAliasedInstance
+//@   mode conc
+//@   interferes
+//@   nopanic
+//@   safety[C15,C13,C09]
+//@   requires recv: s != nil && descriptor != nil && s.rootProvider != nil
+//@   ensures[C01,C02,C10] stored_and_tracked_once: ncalls("scope.setInstance") == 1 && callarg("scope.setInstance", 0, 0) == s && callarg("scope.setInstance", 0, 1) == descriptor
+//@        && idOf(descriptor, callarg("scope.setInstance", 0, 2, "instanceKey")) && callarg("scope.setInstance", 0, 3) == instance
+//@   ensures[C01,C02,C04] every_alias_gets_the_same_instance: forall c int :: 0 <= c && c < ncalls("scope.cacheInstance") ==> callarg("scope.cacheInstance", c, 0) == s && callarg("scope.cacheInstance", c, 3) == instance
+//@        && idOf(callarg("scope.cacheInstance", c, 1, "*Descriptor"), callarg("scope.cacheInstance", c, 2, "instanceKey"))
+//@   ensures[C01,C02,C04] no_alias_skipped: forall i int :: 0 <= i && i < len(descriptor.outputs) && descriptor.outputs[i] != nil && descriptor.outputs[i] != descriptor ==>
+//@        (exists c int :: 0 <= c && c < ncalls("scope.cacheInstance") && callarg("scope.cacheInstance", c, 1, "*Descriptor") == descriptor.outputs[i])
+//@   loop 1
+//@     invariant stored_first: ncalls("scope.setInstance") == 1 && s != nil && s.rootProvider != nil
+//@     invariant aliases_so_far: forall c int :: 0 <= c && c < ncalls("scope.cacheInstance") ==> callarg("scope.cacheInstance", c, 0) == s && callarg("scope.cacheInstance", c, 3) == instance
+//@        && idOf(callarg("scope.cacheInstance", c, 1, "*Descriptor"), callarg("scope.cacheInstance", c, 2, "instanceKey"))
+//@     invariant none_skipped_so_far: forall i int :: 0 <= i && i < idx && descriptor.outputs[i] != nil && descriptor.outputs[i] != descriptor ==>
+//@        (exists c int :: 0 <= c && c < ncalls("scope.cacheInstance") && callarg("scope.cacheInstance", c, 1, "*Descriptor") == descriptor.outputs[i])
 //
 //@ func closeLate
 //@   mode conc
@@ -273,7 +320,7 @@ package godi
 //@   unchecked index#2: results[ret.Index] relies on reflect.Value.Call returning NumOut values and on the analysed return indices
 //@   unchecked index#3: results[descriptor.MultiReturnIndex] relies on the index recorded at registration being an output index of the same constructor
 //@   requires recv: s != nil && s.rootProvider != nil && s.rootProvider.analyzer != nil
-//@   ensures[C15] nil_descriptor: descriptor == nil ==> result0 == nil && typeis(result1, "*ValidationError") && ncalls("scope.setInstance") == 0
+//@   ensures[C15] nil_descriptor: descriptor == nil ==> result0 == nil && typeis(result1, "*ValidationError") && ncalls("scope.setInstance") == 0 && ncalls("scope.setAliasedInstance") == 0
 //@   ensures[C15] error_means_no_value: result1 != nil ==> result0 == nil
 //@   ensures[C01,C03] constructor_at_most_once: ncalls("reflection.ConstructorInvoker.Invoke") <= 1 && ncalls("reflection.Analyzer.Analyze") <= 1
 //@   ensures[C01,C04] instance_values_never_invoke: descriptor != nil && descriptor.IsInstance ==> ncalls("reflection.ConstructorInvoker.Invoke") == 0 && ncalls("reflection.Analyzer.Analyze") == 0
@@ -286,27 +333,28 @@ package godi
 //@   ensures[C04] invokes_with_the_analysed_signature: ncalls("reflection.ConstructorInvoker.Invoke") == 1 ==>
 //@        callarg("reflection.ConstructorInvoker.Invoke", 0, 1, "*reflection.ConstructorInfo").Type == ext("reflect.TypeOf", "reflect.Type", ext("(reflect.Value).Interface", "any", descriptor.Constructor))
 //@   ensures[C15,C10] failed_invoke_stores_nothing: ncalls("reflection.ConstructorInvoker.Invoke") == 1 && callret("reflection.ConstructorInvoker.Invoke", 0, 1) != nil ==>
-//@        ncalls("scope.setInstance") == 0 && result0 == nil && result1 != nil
+//@        ncalls("scope.setInstance") == 0 && ncalls("scope.setAliasedInstance") == 0 && result0 == nil && result1 != nil
 //@   ensures[C15] failed_analysis_stores_nothing: ncalls("reflection.Analyzer.Analyze") == 1 && callret("reflection.Analyzer.Analyze", 0, 1) != nil ==>
-//@        ncalls("scope.setInstance") == 0 && ncalls("reflection.ConstructorInvoker.Invoke") == 0 && typeis(result1, "*ReflectionAnalysisError")
+//@        ncalls("scope.setInstance") == 0 && ncalls("scope.setAliasedInstance") == 0 && ncalls("reflection.ConstructorInvoker.Invoke") == 0 && typeis(result1, "*ReflectionAnalysisError")
 //@        && as(result1, "*ReflectionAnalysisError").Cause == callret("reflection.Analyzer.Analyze", 0, 1)
 //@   ensures[C04,C02,C01] every_output_is_cached_under_its_registration_identity: forall c int :: 0 <= c && c < ncalls("scope.setInstance") ==> idOf(callarg("scope.setInstance", c, 1, "*Descriptor"), callarg("scope.setInstance", c, 2, "instanceKey"))
-//@   ensures[C10,C01] every_store_is_for_this_scope: forall i int :: 0 <= i && i < ncalls("scope.setInstance") ==> callarg("scope.setInstance", i, 0) == s
-//@   at before return#2 : assert[C15] nil_instance_stores_nothing: ncalls("scope.setInstance") == 0
-//@   at before return#3 : assert[C01,C10,C04] instance_stored_once: ncalls("scope.setInstance") == 1 && callarg("scope.setInstance", 0, 1) == descriptor
-//@        && callarg("scope.setInstance", 0, 2) == mk("instanceKey", descriptor.Type, descriptor.Key, descriptor.Group) && callarg("scope.setInstance", 0, 3) == instance && instance == descriptor.Instance
+//@   ensures[C10,C01] every_store_is_for_this_scope: (forall i int :: 0 <= i && i < ncalls("scope.setInstance") ==> callarg("scope.setInstance", i, 0) == s)
+//@        && (forall i int :: 0 <= i && i < ncalls("scope.setAliasedInstance") ==> callarg("scope.setAliasedInstance", i, 0) == s) && ncalls("scope.setAliasedInstance") <= 1
+//@   at before return#2 : assert[C15] nil_instance_stores_nothing: ncalls("scope.setInstance") == 0 && ncalls("scope.setAliasedInstance") == 0
+//@   at before return#3 : assert[C01,C10,C04] instance_stored_once: ncalls("scope.setInstance") == 0 && ncalls("scope.setAliasedInstance") == 1 && callarg("scope.setAliasedInstance", 0, 0) == s
+//@        && callarg("scope.setAliasedInstance", 0, 1) == descriptor && callarg("scope.setAliasedInstance", 0, 2) == instance && instance == descriptor.Instance
 //@   at before return#5 : assert[C15] panic_exposed: as(box(panicErr), "*reflection.PanicError") == panicErr
-//@   at before return#6 : assert[C15] cause_wrapped: ncalls("scope.setInstance") == 0
+//@   at before return#6 : assert[C15] cause_wrapped: ncalls("scope.setInstance") == 0 && ncalls("scope.setAliasedInstance") == 0
 //@   at before return#7 : assert[C10,C02] void_marker_stored_once: ncalls("scope.setInstance") == 1 && callarg("scope.setInstance", 0, 1) == descriptor
-//@   at before return#8 : assert[C15] no_results_stores_nothing: ncalls("scope.setInstance") == 0
-//@   at before return#9 : assert[C15] bad_result_object_stores_nothing: ncalls("scope.setInstance") == 0
+//@   at before return#8 : assert[C15] no_results_stores_nothing: ncalls("scope.setInstance") == 0 && ncalls("scope.setAliasedInstance") == 0
+//@   at before return#9 : assert[C15] bad_result_object_stores_nothing: ncalls("scope.setInstance") == 0 && ncalls("scope.setAliasedInstance") == 0
 //@   at before return#12 : assert[C10,C01] every_result_field_stored: ncalls("scope.setInstance") == len(registrations)
 //@        && (forall i int :: 0 <= i && i < len(registrations) ==> callarg("scope.setInstance", i, 3) == registrations[i].Value)
 //@   at before return#14 : assert[C10,C01] every_return_value_stored: forall j int :: 0 <= j && j < len(info.Returns) && !info.Returns[j].IsError ==>
 //@        (exists c int :: 0 <= c && c < ncalls("scope.setInstance") && callarg("scope.setInstance", c, 3) == ext("(reflect.Value).Interface", "any", results[info.Returns[j].Index]))
-//@   at before return#15 : assert[C15] nil_result_stores_nothing: ncalls("scope.setInstance") == 0
-//@   at before return#16 : assert[C01,C02,C03,C10] single_output_stored_once: ncalls("scope.setInstance") == 1 && callarg("scope.setInstance", 0, 1) == descriptor
-//@        && callarg("scope.setInstance", 0, 2) == mk("instanceKey", descriptor.Type, descriptor.Key, descriptor.Group) && callarg("scope.setInstance", 0, 3) == instance && instance != nil
+//@   at before return#15 : assert[C15] nil_result_stores_nothing: ncalls("scope.setInstance") == 0 && ncalls("scope.setAliasedInstance") == 0
+//@   at before return#16 : assert[C01,C02,C03,C10] single_output_stored_once: ncalls("scope.setInstance") == 0 && ncalls("scope.setAliasedInstance") == 1 && callarg("scope.setAliasedInstance", 0, 0) == s
+//@        && callarg("scope.setAliasedInstance", 0, 1) == descriptor && callarg("scope.setAliasedInstance", 0, 2) == instance && instance != nil
 //@   loop 1
 //@     invariant stored_so_far: ncalls("scope.setInstance") == idx && (forall i int :: 0 <= i && i < idx ==> callarg("scope.setInstance", i, 3) == registrations[i].Value)
 //@     invariant own_scope: forall c int :: 0 <= c && c < ncalls("scope.setInstance") ==> callarg("scope.setInstance", c, 0) == s
@@ -1039,12 +1087,15 @@ package godi
 //@   ghost linked bool
 //@   at after loop 3 : ghost linked := true
 //@   at after loop 6 : ghost linked := true
+//@   at after loop 8 : ghost linked := true
 //@   ensures[C04,C01,C02] outputs_of_one_registration_are_linked: result == nil && ncalls("collection.registerDescriptor") >= 2 ==> (forall c int :: 0 <= c && c < ncalls("collection.registerDescriptor") ==>
 //@        len(callarg("collection.registerDescriptor", c, 1, "*Descriptor").outputs) == ncalls("collection.registerDescriptor")
 //@        && callarg("collection.registerDescriptor", c, 1, "*Descriptor").outputs[c] == callarg("collection.registerDescriptor", c, 1, "*Descriptor"))
 //@   loop 3
 //@     invariant linked_so_far: forall i int :: 0 <= i && i < idx ==> outputs[i].outputs == outputs
 //@   loop 6
+//@     invariant linked_so_far: forall i int :: 0 <= i && i < idx ==> outputs[i].outputs == outputs
+//@   loop 8
 //@     invariant linked_so_far: forall i int :: 0 <= i && i < idx ==> outputs[i].outputs == outputs
 //@   loop 1
 //@     invariant no_registration_yet: ncalls("collection.registerDescriptor") == 0 && ncalls("reflection.Analyzer.Analyze") == 0 && ncalls("addOptions.Validate") == 0
@@ -1071,6 +1122,8 @@ package godi
 //@     invariant phase: ncalls("newDescriptorWithAnalyzer") == 1 && callret("newDescriptorWithAnalyzer", 0, 1) == nil && ncalls("Descriptor.Validate") == 1 && callret("Descriptor.Validate", 0, 0) == nil
 //@        && ncalls("addOptions.Validate") == 1 && callret("addOptions.Validate", 0, 0) == nil && ncalls("reflection.Analyzer.Analyze") == 1 && callret("reflection.Analyzer.Analyze", 0, 1) == nil && descriptor != nil && descriptor.Lifetime == lifetime
 //@   loop 7
+//@     invariant outputs_nonnil: forall i int :: 0 <= i && i < len(outputs) ==> outputs[i] != nil
+//@     invariant outputs_are_the_registered: len(outputs) == ncalls("collection.registerDescriptor") && (forall i int :: 0 <= i && i < len(outputs) ==> outputs[i] == callarg("collection.registerDescriptor", i, 1, "*Descriptor"))
 //@     invariant build_list_grows: mark == len(old(r.allDescriptors)) && len(r.allDescriptors) >= mark && ncalls("collection.rollbackTo") == 0
 //@        && (forall i int :: 0 <= i && i < mark ==> r.allDescriptors[i] == old(r.allDescriptors)[i])
 //@        && (forall i int :: 0 <= i && i < len(r.allDescriptors) ==> r.allDescriptors[i] != nil) && regmaps(r)
